@@ -8,11 +8,35 @@
      on_timeline latest tr := Consistent tr latest if tr.N <= latest.N, else Consistent latest tr
         (the comparison mergeLatestMem makes);
      run steps w cs : the history semantics — lookups (client index, path, version) executed one
-        after the other by any number of clients sharing the world w (restarts are new clients). *)
+        after the other by any number of clients sharing the world w (restarts are new clients).
+
+   Order on heads and histories (Client/SeqProofsOrder.v, SeqProofsOrderHist.v)
+     Before A B       := A = B \/ (tN A < tN B /\ Consistent A B)
+     Comparable A B   := Before A B \/ Before B A
+     cfg_msg w        := the content of <name>/latest in w
+     BeforeCfg A w    := the stored head of w opens (under the configured key) to a Y with Before A Y
+     CfgMono w w'     := forall A, BeforeCfg A w -> BeforeCfg A w' \/ collision
+     HeadStep L L'    := L' = L \/ collision \/ tN L <= 0 \/ (Before L L' /\ tN L' <= 2^62)
+     live c           := c_init c = Some None  (initialised without error: a client that answers lookups)
+     InvC c w         := tN (c_latest c) <= 0 \/ BeforeCfg (c_latest c) w
+     AllBefore w cs   := forall i, live (cs i) -> InvC (cs i) w \/ collision
+     run_states steps w cs := the global states (world, clients) between the lookups of the history
+     ACCEPTED:  accepted steps w cs A := in one of those states, A is non-empty (0 < tN A) and
+                  is the latest of a live client ("installed as latest")
+                  or is what the stored configuration opens to ("written to the config")
+     run_clean steps w cs := no lookup of the history BOTH returned an error AND moved its client's head
+                  (clean_step r c c' := (forall e, r <> LErr e) \/ tN (c_latest c') = tN (c_latest c))
+     w_interf w = []  := no foreign writer: the clients of the history are the only writers of the configuration
+   Interference-closed mergeLatestMem / mergeLatest (Client/SeqEnv.v, SeqEnvProofs.v)
+     env := list envf, envf := tree -> str -> option (tree * str): the other lookups of the same Client,
+        one turn per point where the code re-reads c.latest / c.latestMsg;
+     env_ok e := every turn installs only (t, m) with m signed for t, tN current < tN t, Consistent current t;
+     chain L L' := L' is reached from L by such turns;  install_state tr m s := s with head (tr, m). *)
 From Verif.Base Require Import Bytes.
 From Verif.Tlog Require Import Index Tree Codec Tile TileReader TileSpec.
 From Verif.Note Require Import Note.
 From Verif.Client Require Import Seq SeqProofs SeqProofsTile SeqProofsSafe SeqProofsTop SeqProofsInst SeqProofsHonest.
+From Verif.Client Require Import SeqProofsOrder SeqProofsOrderHist SeqEnv SeqEnvProofs.
 From Verif.Tlog Require ProofsTree.
 
 (* config_monotone_chain: along any history every WriteConfig (successful or lost to a write
@@ -117,13 +141,223 @@ Theorem C13_honest_growth_no_security :
 Proof. exact honest_run_no_security. Qed.
 Print Assumptions C13_honest_growth_no_security.
 
-(* NOT PROVED (targets of DESIGN.md):
-   * "the set of heads ever installed is totally ordered by Consistent": needs transitivity of
-     Consistent, which holds only up to hash collisions (NodeAt facts for two different roots);
-     the per-step statement C13_config_monotone_chain is what is proved.
-   * consistent_iff_check_tree (Consistent older newer <-> exists p, check_tree p newer older = Ok):
-     not attempted; Consistent is stated directly as what checkTrees computes.
-   * the retry branch of mergeLatestMem (c.latest changed underfoot by a concurrent lookup of the
-     same client) and interleavings of the configuration operations of several clients do not exist
-     in the sequential model; those paths are decided only by the overlapping-lookups and
-     configuration-interleaving streams of harness/props/c13.go (oracle strength). *)
+(* ================================================================================================
+   The order structure of Consistent (no ground-truth log; collision of the node hash explicit)
+   ================================================================================================ *)
+
+(* transitivity *)
+Theorem C13_consistent_trans :
+  forall (node_hash : hash -> hash -> hash) (A B C : tree),
+  Consistent node_hash (NodeAt node_hash) A B -> Consistent node_hash (NodeAt node_hash) B C ->
+  Codec.tN A <= 2 ^ 62 -> Codec.tN B <= 2 ^ 62 ->
+  Consistent node_hash (NodeAt node_hash) A C \/
+  (exists a b c d : hash, (a, b) <> (c, d) /\ node_hash a b = node_hash c d).
+Proof. exact consistent_trans. Qed.
+Print Assumptions C13_consistent_trans.
+
+(* two prefixes of one head: the smaller is a prefix of the larger *)
+Theorem C13_consistent_prefixes :
+  forall (node_hash : hash -> hash -> hash) (A B C : tree),
+  Consistent node_hash (NodeAt node_hash) A C -> Consistent node_hash (NodeAt node_hash) B C ->
+  Codec.tN A <= Codec.tN B -> Codec.tN B <= 2 ^ 62 ->
+  Consistent node_hash (NodeAt node_hash) A B \/
+  (exists a b c d : hash, (a, b) <> (c, d) /\ node_hash a b = node_hash c d).
+Proof. exact consistent_prefixes. Qed.
+Print Assumptions C13_consistent_prefixes.
+
+(* equal sizes: equal hashes *)
+Theorem C13_consistent_same_size :
+  forall (node_hash : hash -> hash -> hash) (A B : tree),
+  Consistent node_hash (NodeAt node_hash) A B -> Codec.tN A = Codec.tN B -> 0 < Codec.tN A <= 2 ^ 62 ->
+  Codec.tH A = Codec.tH B \/
+  (exists a b c d : hash, (a, b) <> (c, d) /\ node_hash a b = node_hash c d).
+Proof. exact consistent_same_size. Qed.
+Print Assumptions C13_consistent_same_size.
+
+(* ================================================================================================
+   Histories: chains of heads and the total order of accepted heads
+   ================================================================================================ *)
+
+(* every client's in-memory head moves along one chain, whatever the world and a foreign writer do:
+   between any two points of a history the later head is the earlier one, or extends it *)
+Theorem C13_client_heads_chain :
+  forall sha leaf_hash node_hash V esc_path esc_vers skip vs name,
+  (forall msg t, signed_tree V vs msg t -> Codec.tN t < 2 ^ 62) ->
+  forall steps w cs rs evs w' cs',
+  (forall i, ClientInv leaf_hash V (NodeAt node_hash) vs name (cs i)) -> key_ok sha vs name w ->
+  run sha leaf_hash node_hash V esc_path esc_vers skip steps w cs = (rs, evs, w', cs') ->
+  forall i,
+    (c_latest (cs' i) = c_latest (cs i) \/
+     (exists a b c d : hash, (a, b) <> (c, d) /\ node_hash a b = node_hash c d) \/
+     Codec.tN (c_latest (cs i)) <= 0 \/
+     ((c_latest (cs i) = c_latest (cs' i) \/
+       (Codec.tN (c_latest (cs i)) < Codec.tN (c_latest (cs' i)) /\
+        Consistent node_hash (NodeAt node_hash) (c_latest (cs i)) (c_latest (cs' i)))) /\
+      Codec.tN (c_latest (cs' i)) <= 2 ^ 62)) /\
+    Codec.tN (c_latest (cs i)) <= Codec.tN (c_latest (cs' i)).
+Proof. exact client_heads_chain. Qed.
+Print Assumptions C13_client_heads_chain.
+
+(* the stored head moves along one chain when the clients of the history are its only writers:
+   whatever was before the stored head stays before it *)
+Theorem C13_config_heads_chain :
+  forall sha leaf_hash node_hash V esc_path esc_vers skip vs name,
+  (forall msg t, signed_tree V vs msg t -> Codec.tN t < 2 ^ 62) ->
+  forall steps w cs rs evs w' cs',
+  (forall i, ClientInv leaf_hash V (NodeAt node_hash) vs name (cs i)) -> key_ok sha vs name w ->
+  w_interf w = [] ->
+  run sha leaf_hash node_hash V esc_path esc_vers skip steps w cs = (rs, evs, w', cs') ->
+  w_interf w' = [] /\
+  forall A, BeforeCfg node_hash V vs name A w ->
+    BeforeCfg node_hash V vs name A w' \/
+    (exists a b c d : hash, (a, b) <> (c, d) /\ node_hash a b = node_hash c d).
+Proof. exact config_heads_chain. Qed.
+Print Assumptions C13_config_heads_chain.
+
+(* the cross invariant: along a clean history without a foreign writer the head of every live client
+   stays before the stored head *)
+Theorem C13_heads_before_config :
+  forall sha leaf_hash node_hash V esc_path esc_vers skip vs name,
+  (forall msg t, signed_tree V vs msg t -> Codec.tN t < 2 ^ 62) ->
+  forall steps w cs rs evs w' cs',
+  (forall i, ClientInv leaf_hash V (NodeAt node_hash) vs name (cs i)) -> key_ok sha vs name w ->
+  w_interf w = [] ->
+  run sha leaf_hash node_hash V esc_path esc_vers skip steps w cs = (rs, evs, w', cs') ->
+  run_clean sha leaf_hash node_hash V esc_path esc_vers skip steps w cs ->
+  (forall i, live (cs i) ->
+     (Codec.tN (c_latest (cs i)) <= 0 \/ BeforeCfg node_hash V vs name (c_latest (cs i)) w) \/
+     (exists a b c d : hash, (a, b) <> (c, d) /\ node_hash a b = node_hash c d)) ->
+  forall i, live (cs' i) ->
+     (Codec.tN (c_latest (cs' i)) <= 0 \/ BeforeCfg node_hash V vs name (c_latest (cs' i)) w') \/
+     (exists a b c d : hash, (a, b) <> (c, d) /\ node_hash a b = node_hash c d).
+Proof. exact heads_before_config. Qed.
+Print Assumptions C13_heads_before_config.
+
+(* installed_heads_totally_ordered: along any history of any number of clients sharing the
+   configuration (no foreign writer), in which no lookup both failed and moved its client's head,
+   any two ACCEPTED heads — installed as the latest of a live client or stored in the configuration,
+   in any of the states between the lookups — are equal or one is a strictly smaller Consistent
+   prefix of the other: two mutually inconsistent signed heads are never both accepted.
+   Collision disjunct explicit.  The side condition run_clean is necessary:
+   see C13_installed_heads_totally_ordered_refuted / finding K10. *)
+Theorem C13_installed_heads_totally_ordered :
+  forall sha leaf_hash node_hash V esc_path esc_vers skip vs name,
+  (forall msg t, signed_tree V vs msg t -> Codec.tN t < 2 ^ 62) ->
+  forall steps w cs rs evs w' cs',
+  (forall i, ClientInv leaf_hash V (NodeAt node_hash) vs name (cs i)) -> key_ok sha vs name w ->
+  w_interf w = [] ->
+  run sha leaf_hash node_hash V esc_path esc_vers skip steps w cs = (rs, evs, w', cs') ->
+  run_clean sha leaf_hash node_hash V esc_path esc_vers skip steps w cs ->
+  AllBefore node_hash V vs name w cs ->
+  forall A B,
+  accepted sha leaf_hash node_hash V esc_path esc_vers skip vs name steps w cs A ->
+  accepted sha leaf_hash node_hash V esc_path esc_vers skip vs name steps w cs B ->
+  ((A = B \/ (Codec.tN A < Codec.tN B /\ Consistent node_hash (NodeAt node_hash) A B)) \/
+   (B = A \/ (Codec.tN B < Codec.tN A /\ Consistent node_hash (NodeAt node_hash) B A))) \/
+  (exists a b c d : hash, (a, b) <> (c, d) /\ node_hash a b = node_hash c d).
+Proof. exact installed_heads_totally_ordered. Qed.
+Print Assumptions C13_installed_heads_totally_ordered.
+
+(* non-vacuity: new clients (restarts) over ANY configuration satisfy the hypotheses on clients *)
+Example C13_new_clients_all_before : forall node_hash V vs name w,
+  AllBefore node_hash V vs name w (fun _ => new_client 2).
+Proof. intros. apply fresh_all_before. reflexivity. Qed.
+
+(* ================================================================================================
+   The interference-closed model: the retry branch of mergeLatestMem and the compare-and-swap loop
+   ================================================================================================ *)
+
+(* with an environment that does nothing the refined steps ARE the steps of Seq.v *)
+Theorem C13_env_nil_is_seq :
+  forall (node_hash : hash -> hash -> hash) (V : str -> str -> str -> bool) (msg : str) (s : state),
+  merge_latest_mem_env node_hash V msg [] s =
+    (let (r, s') := merge_latest_mem node_hash V msg s in (r, [], s')) /\
+  merge_latest_env node_hash V msg [] s =
+    (let (r, s') := merge_latest node_hash V msg s in (r, [], s')).
+Proof. intros. split; [apply merge_latest_mem_env_nil | apply merge_latest_env_nil]. Qed.
+Print Assumptions C13_env_nil_is_seq.
+
+(* (a) client invariant and config_monotone_chain under interference: whatever the other lookups of
+   the client (env_ok) and a foreign writer of the configuration (w_interf, any bytes) do, mergeLatest
+   keeps CInv, never runs out of fuel, and every WriteConfig it issues writes a head signed under the
+   configured key over a stored head that is empty or a signed, strictly smaller Consistent prefix of it
+   (or a collision is explicit: the written head may be a later one than the one compared);
+   (c) and a security error comes with Security events whose text contains the offending note and the
+   note of the head the client holds when the call returns *)
+Theorem C13_env_invariant_config_chain_report :
+  forall (sha : str -> str) leaf_hash node_hash V (esc_path esc_vers : str -> option str) (skip : str -> bool) vs name,
+  (forall msg t, signed_tree V vs msg t -> Codec.tN t < 2 ^ 62) ->
+  forall msg e s r e' s',
+  CInv leaf_hash V (NodeAt node_hash) vs name (s_c s) -> env_ok node_hash V vs e ->
+  merge_latest_env node_hash V msg e s = (r, e', s') ->
+  CInv leaf_hash V (NodeAt node_hash) vs name (s_c s') /\ env_ok node_hash V vs e' /\ r <> Some EFuelC /\
+  exists evs, s_tr s' = s_tr s ++ evs /\
+    (forall f old new ok, In (EvWriteConfig f old new ok) evs ->
+       f = latest_file name /\
+       ((exists tnew, signed_tree V vs new tnew /\
+           (old = [] \/ exists told, signed_tree V vs old told /\ Codec.tN told < Codec.tN tnew /\
+                                     Consistent node_hash (NodeAt node_hash) told tnew)) \/
+        (exists a b c d : hash, (a, b) <> (c, d) /\ node_hash a b = node_hash c d))) /\
+    (r = Some ESecurity ->
+       Exists is_sec evs /\
+       exists off, (off = [] \/ exists t, signed_tree V vs off t) /\
+         forall m, In (EvSecurity m) evs ->
+           (exists pre post, m = pre ++ indent off ++ post) /\
+           (exists pre post, m = pre ++ indent (c_latest_msg (s_c s')) ++ post)).
+Proof. exact merge_latest_env_safe. Qed.
+Print Assumptions C13_env_invariant_config_chain_report.
+
+(* (b) fork_never_accepted under interference: mergeLatestMem installs a head only if it is signed and
+   Consistent with the head current AT INSTALL TIME — s1 is the state immediately before the install,
+   whose head was reached from the initial one by environment turns only *)
+Theorem C13_env_installs_only_consistent :
+  forall (sha : str -> str) leaf_hash node_hash V (esc_path esc_vers : str -> option str) (skip : str -> bool) vs name,
+  (forall msg t, signed_tree V vs msg t -> Codec.tN t < 2 ^ 62) ->
+  forall msg e s e' s',
+  CInv leaf_hash V (NodeAt node_hash) vs name (s_c s) -> env_ok node_hash V vs e ->
+  merge_latest_mem_env node_hash V msg e s = (inl MsgFuture, e', s') ->
+  exists s1 tr, s' = install_state tr msg s1 /\ signed_tree V vs msg tr /\
+    chain node_hash (c_latest (s_c s)) (c_latest (s_c s1)) /\
+    Codec.tN (c_latest (s_c s1)) < Codec.tN tr /\
+    Consistent node_hash (NodeAt node_hash) (c_latest (s_c s1)) tr.
+Proof. exact mem_env_installs_consistent. Qed.
+Print Assumptions C13_env_installs_only_consistent.
+
+(* ... so a signed head off the timeline of every head the client holds during the call is refused:
+   the call fails, the configuration is untouched, and the client's head is one the environment put there *)
+Theorem C13_env_fork_never_accepted :
+  forall (sha : str -> str) leaf_hash node_hash V (esc_path esc_vers : str -> option str) (skip : str -> bool) vs name,
+  (forall msg t, signed_tree V vs msg t -> Codec.tN t < 2 ^ 62) ->
+  forall msg tr e s r e' s',
+  CInv leaf_hash V (NodeAt node_hash) vs name (s_c s) -> env_ok node_hash V vs e ->
+  signed_tree V vs msg tr ->
+  (forall L, chain node_hash (c_latest (s_c s)) L -> ~ on_timeline node_hash (NodeAt node_hash) L tr) ->
+  merge_latest_mem_env node_hash V msg e s = (r, e', s') ->
+  (exists err, r = inr err) /\
+  chain node_hash (c_latest (s_c s)) (c_latest (s_c s')) /\
+  (w_config (s_w s') = w_config (s_w s) /\ w_interf (s_w s') = w_interf (s_w s)) /\
+  textend (ev_nocfg leaf_hash node_hash V (NodeAt node_hash) (tile_ok node_hash) vs name) s s'.
+Proof. exact fork_never_installed_env. Qed.
+Print Assumptions C13_env_fork_never_accepted.
+
+(* (c) fork_reports_both_heads under interference, for mergeLatestMem: a security error comes with a
+   Security event, and every Security event emitted contains the offending note and the note of the head
+   the client holds when the call returns — the head current at detection time (the snapshot is refreshed
+   after every lost install), reached from the initial one by environment turns *)
+Theorem C13_env_fork_reports_both_heads :
+  forall (sha : str -> str) leaf_hash node_hash V (esc_path esc_vers : str -> option str) (skip : str -> bool) vs name,
+  (forall msg t, signed_tree V vs msg t -> Codec.tN t < 2 ^ 62) ->
+  forall msg e s e' s',
+  CInv leaf_hash V (NodeAt node_hash) vs name (s_c s) -> env_ok node_hash V vs e ->
+  merge_latest_mem_env node_hash V msg e s = (inr ESecurity, e', s') ->
+  chain node_hash (c_latest (s_c s)) (c_latest (s_c s')) /\
+  exists evs, s_tr s' = s_tr s ++ evs /\ Exists is_sec evs /\
+    forall m, In (EvSecurity m) evs ->
+      (exists pre post, m = pre ++ indent msg ++ post) /\
+      (exists pre post, m = pre ++ indent (c_latest_msg (s_c s')) ++ post).
+Proof. exact mem_env_security_report. Qed.
+Print Assumptions C13_env_fork_reports_both_heads.
+
+(* non-vacuity of env_ok: the idle environment of any length *)
+Example C13_env_ok_idle : forall node_hash V vs k, env_ok node_hash V vs (repeat (fun _ _ => None) k).
+Proof. intros. unfold env_ok. apply Forall_forall. intros f Hin. apply repeat_spec in Hin. subst f. intros L Lm t m [=]. Qed.
